@@ -50,8 +50,12 @@ package authenticators
 //@ func (*jwtAuthenticator).getKey
 //@   props C10
 
+// C11 / C05: whatever introspection response is used - fetched or taken from the cache - it has been
+// validated against the assertions of *this* instance (ghost log ival = IntrospectionResponse.Validate);
+// the cache key does not cover rule-level assertions, so a cached response is not "already validated".
 //@ func (*oauth2IntrospectionAuthenticator).getSubjectInformation
-//@   props C10
+//@   props C10 C11
+//@   ensures ret1 == nil ==> ival.n > old(ival.n) && ival.ret0[ival.n - 1] == nil
 
 //@ func (*genericAuthenticator).getSubjectInformation
 //@   props C10
